@@ -1,0 +1,6 @@
+//go:build !verif
+
+package config
+
+// verifOrderIntegrations is a no-op outside the simulation build.
+func verifOrderIntegrations(igs []Integration) {}
